@@ -116,6 +116,12 @@ func c14Feed(k, sym int, absentValues bool) (*gtfs.Realtime, []specStop) {
 }
 
 func c14FeedScheme(k, sym int, scheme int) (*gtfs.Realtime, []specStop) {
+	return c14FeedList(k, sym, scheme, nil)
+}
+
+// c14FeedList: as c14FeedScheme; a non-nil stops list replaces the symbol's list (stop ids of
+// the form "Snn" then; the symbol still says whether the trip is assigned).
+func c14FeedList(k, sym int, scheme int, stops []string) (*gtfs.Realtime, []specStop) {
 	absentValues := scheme == 1
 	kt, ktr := k, k // feed index used for times / for tracks
 	if scheme == 2 || scheme == 4 {
@@ -133,6 +139,9 @@ func c14FeedScheme(k, sym int, scheme int) (*gtfs.Realtime, []specStop) {
 	if sym >= 2 {
 		list = c14Lists[sym-2]
 	}
+	if stops != nil {
+		list = stops
+	}
 	trip := gtfs.Trip{ID: gtfs.TripID{ID: "063000_L..N01", RouteID: "L", DirectionID: gtfs.DirectionID_True, HasStartDate: true, StartDate: c14Start.Add(-6*time.Hour - 30*time.Minute),
 		HasStartTime: true, StartTime: 6*time.Hour + 30*time.Minute}, IsEntityInMessage: true}
 	if sym >= 2 {
@@ -147,6 +156,10 @@ func c14FeedScheme(k, sym int, scheme int) (*gtfs.Realtime, []specStop) {
 			// keyed by stop, not by position, so that the same stop keeps its values when the
 			// list shrinks from the front
 			sj := int(s[0] - 'A')
+			if stops != nil {
+				sj = 0
+				fmt.Sscanf(s, "S%d", &sj)
+			}
 			_ = j
 			a := time.Unix(int64(c14T0+60*kt+1000+10*sj), 0).UTC()
 			d := time.Unix(int64(c14T0+60*kt+2000+10*sj), 0).UTC()
@@ -395,6 +408,82 @@ func c14Shallow(maxLen int) Harness {
 	}
 }
 
+// c14LongLists: lists of 9..65 stops. Feed symbols are windows of the universe S00..S(n-1):
+// everything, everything but the first, the second half, the last stop, the first half (the
+// list shrinks at the back), everything + 3 new stops, the second half + 3 new stops, nothing,
+// and "trip omitted"; all histories of <= 3 feeds.
+var c14LongSizes = []int{9, 17, 33, 65}
+var c14WindowNames = []string{"omitted", "all", "all-but-first", "second-half", "last", "first-half", "all+3-new", "second-half+3-new", "no-stops"}
+
+func c14Window(n, w int) []string {
+	var all []string
+	for i := 0; i < n; i++ {
+		all = append(all, fmt.Sprintf("S%02d", i))
+	}
+	extra := []string{fmt.Sprintf("S%02d", n), fmt.Sprintf("S%02d", n+1), fmt.Sprintf("S%02d", n+2)}
+	switch w {
+	case 1:
+		return all
+	case 2:
+		return all[1:]
+	case 3:
+		return all[n/2:]
+	case 4:
+		return all[n-1:]
+	case 5:
+		return all[:n/2]
+	case 6:
+		return append(all, extra...)
+	case 7:
+		return append(append([]string{}, all[n/2:]...), extra...)
+	}
+	return []string{}
+}
+
+func c14LongLists(maxLen int) Harness {
+	return func(c *Ctx) {
+		n := c14LongSizes[c.Free("stops", len(c14LongSizes))]
+		h := 1 + c.Free("history_length", maxLen)
+		var ws []int
+		var names []string
+		for k := 0; k < h; k++ {
+			w := c.Free(fmt.Sprintf("feed[%d]", k), len(c14WindowNames))
+			ws = append(ws, w)
+			names = append(names, c14WindowNames[w])
+		}
+		hist := fmt.Sprintf("%d stops: %s", n, strings.Join(names, " -> "))
+		c.Input(hash64(hist), h >= 2, func() string { return hist })
+		var feeds []*gtfs.Realtime
+		var mirrors [][]specStop
+		for k, w := range ws {
+			sym := 2
+			var stops []string
+			if w == 0 {
+				sym = 0
+			} else {
+				stops = c14Window(n, w)
+			}
+			f, m := c14FeedList(k, sym, 0, stops)
+			feeds = append(feeds, f)
+			mirrors = append(mirrors, m)
+		}
+		st := &c14State{}
+		for k, w := range ws {
+			sym := 2
+			if w == 0 {
+				sym = 0
+			}
+			if !st.step(c, k, sym, mirrors[k], feeds, hist) {
+				return
+			}
+		}
+		if len(st.cands) == 1 {
+			c.Outcome(specListString(st.cands[0]))
+		}
+		c.Witness("long_stop_lists")
+	}
+}
+
 // c14Deep: explicit-state BFS to the fixpoint. A state is reached by a representative
 // history (replayed on a fresh BuildJournal for every successor - real objects cannot be
 // cloned). Canonical key: the (stop id, marked?) list and whether the trip is marked past.
@@ -518,7 +607,7 @@ func init() {
 	register(&Check{
 		ID:    "C14",
 		Level: "model_checking",
-		Rule: "one trip; feed symbols {trip omitted, unassigned [AB], assigned x every list over {A,B,C} of length <= 3 (40 lists)} = 42; ALL histories of <= 3 feeds (thorough <= 4), each under 7 value schemes (updates flagged NO_DATA / SKIPPED; unique per feed; optional values absent; times constant while the track changes; track constant while times change; all constant) and 4 feed-time schemes (60 s apart; all equal; no timestamps; decreasing), one deviation at a time, journal built for every prefix; plus explicit-state BFS to the fixpoint over histories starting with an assigning feed, states canonicalised to (stop id, marked?)* + trip-marked flag; " +
+		Rule: "lists of 9 / 17 / 33 / 65 stops: all histories of <= 3 feeds over 9 window symbols (omitted, all, all but the first, second half, last, first half, all + 3 new, second half + 3 new, no stops); one trip; feed symbols {trip omitted, unassigned [AB], assigned x every list over {A,B,C} of length <= 3 (40 lists)} = 42; ALL histories of <= 3 feeds (thorough <= 4), each under 7 value schemes (updates flagged NO_DATA / SKIPPED; unique per feed; optional values absent; times constant while the track changes; track constant while times change; all constant) and 4 feed-time schemes (60 s apart; all equal; no timestamps; decreasing), one deviation at a time, journal built for every prefix; plus explicit-state BFS to the fixpoint over histories starting with an assigning feed, states canonicalised to (stop id, marked?)* + trip-marked flag; " +
 			"non-trivial = distinct histories of >= 2 feeds; oracle = nondeterministic specification automaton (set of admissible lists, refined by each observation)",
 		Assumptions: []string{"when the update's first stop is not in the list, or the update is empty, any prefix of the old list may be kept (the statement only constrains the case where the first stop is present)", "BFS state merging is sound because the journal code branches only on stop ids, nil-ness of marks and the assigned/active flags"},
 		Scenarios: func(tier string) []*Scenario {
@@ -526,7 +615,7 @@ func init() {
 			if tier == "thorough" {
 				n = 4
 			}
-			return []*Scenario{{Name: fmt.Sprintf("all-histories<=%d", n), Bound: 1, Run: c14Shallow(n)}, {Name: "bfs-fixpoint", Bound: 0, Run: c14Deep}}
+			return []*Scenario{{Name: fmt.Sprintf("all-histories<=%d", n), Bound: 1, Run: c14Shallow(n)}, {Name: "bfs-fixpoint", Bound: 0, Run: c14Deep}, {Name: "long-lists<=3", Bound: -1, Run: c14LongLists(3)}}
 		},
 	})
 }
